@@ -1523,3 +1523,29 @@ Section FlushOrder.
     now rewrite (find_key_perm c c' k Hp Hnd).
   Qed.
 End FlushOrder.
+
+(* ========================= operators outside the API ====================== *)
+Lemma flt_startswith_is_equals hs q e : consistent f64_valid hs -> f64_valid q ->
+  exists r, flt_search OP_PREFIX q e (flt_run hs) = Some r /\
+    same_set r (fun n => exists v, stored_after hs n = Some v /\ f64_eq v q = true).
+Proof.
+  intros Hc Hq.
+  destruct (search_hist_keys enc_f64 dec_f64 f64_eq f64_valid flt_enc_veqb flt_dec_valid flt_dec_enc
+              hs OP_PREFIX q e Hc) as (r & R1 & R2 & R3); [unfold op_scan, OP_PREFIX; tauto|].
+  exists r. split; [exact R1|]. split; [exact R2|]. intros n. rewrite R3.
+  pose proof (run_stored_valid f64_valid hs Hc) as Hsv. split.
+  - intros [v [S1 S2]]. exists v. split; [exact S1|]. rewrite key_matches_prefix in S2.
+    apply is_prefix_same_len in S2; [|now rewrite !enc_f64_length].
+    apply (flt_enc_veqb v q (Hsv _ _ S1) Hq). now symmetry.
+  - intros [v [S1 S2]]. exists v. split; [exact S1|]. rewrite key_matches_prefix.
+    apply is_prefix_same_len; [now rewrite !enc_f64_length|].
+    symmetry. now apply (flt_enc_veqb v q (Hsv _ _ S1) Hq).
+Qed.
+
+Lemma search_unknown_op {V : Type} (enc : V -> bytes) dec veqb op q e b :
+  7 < op -> search enc dec veqb op q e b = None.
+Proof.
+  intros H. unfold search, search_with.
+  destruct op as [|p]; [lia|].
+  do 3 (try match goal with p0 : positive |- _ => destruct p0; try reflexivity; try lia end).
+Qed.
